@@ -338,12 +338,16 @@ let cy_hash hx o u fs =
     (cy_hash_action o.o_unsafe_hash o.o_eq o.o_frozen (cy_explicit_hash u))
     (cy_hash_names hx fs)
 
-(** val cy_match_args : opts -> user -> field list -> name list option **)
+(** val cy_match_args :
+    bool -> opts -> user -> field list -> name list option **)
 
-let cy_match_args o u fs =
+let cy_match_args mx o u fs =
   if (||) (negb o.o_match_args) u.u_match_args
   then None
-  else Some (if o.o_kw_only then [] else names fs)
+  else Some
+         (if o.o_kw_only
+          then []
+          else names (if mx then filter (fun f -> f.f_init) fs else fs))
 
 type src =
 | SParam
@@ -547,13 +551,14 @@ type decisions = { d_rejected : bool; d_sig : sigres;
                    d_match : name list option; d_body : (name * src) list;
                    d_post : name list option }
 
-(** val cy_decide : bool -> opts -> user -> field list -> decisions **)
+(** val cy_decide :
+    bool -> bool -> opts -> user -> field list -> decisions **)
 
-let cy_decide hx o u fs =
+let cy_decide hx mx o u fs =
   { d_rejected = (cy_rejected o u fs); d_sig = (cy_init_sig o u fs); d_repr =
     (cy_repr_fields o u fs); d_eq = (cy_eq_fields o u fs); d_order =
     (cy_order_fields o fs); d_hash = (cy_hash hx o u fs); d_match =
-    (cy_match_args o u fs); d_body = (cy_body fs); d_post =
+    (cy_match_args mx o u fs); d_body = (cy_body fs); d_post =
     (post_init_args u fs) }
 
 (** val py_decide : opts -> user -> field list -> decisions **)
